@@ -300,7 +300,10 @@ LogFold(work, w) ==
   IF work = <<>> THEN w
   ELSE LET x == work[1] IN
        IF w[x.s] = <<>> \/ x.t > Last(w[x.s]).t
-       THEN LogFold(Tail(work), [w EXCEPT ![x.s] = Append(@, [t |-> x.t, v |-> x.v, ty |-> x.ty])])
+       THEN LET \* WAL replay re-types a float staleness marker after a histogram sample like Commit does
+                ty1 == IF x.ty = "f" /\ x.v = 0 /\ w[x.s] # <<>> /\ Last(w[x.s]).ty \in {"h", "fh"}
+                       THEN Last(w[x.s]).ty ELSE x.ty
+            IN LogFold(Tail(work), [w EXCEPT ![x.s] = Append(@, [t |-> x.t, v |-> x.v, ty |-> ty1])])
        ELSE LogFold(Tail(work), w)
 
 \* (TLC re-evaluates a zero-arity LET definition at every reference but evaluates operator arguments once, so the
